@@ -68,16 +68,16 @@ def plan(tier, seed, avoid):
         specs = [{"part": "init", "shard": i, "units": 2, "items": 350} for i in range(12)]
         specs += [{"part": "switch", "shard": i, "units": 1, "funs": 24} for i in range(4)]
     else:
-        specs = [{"part": "init", "shard": i, "units": 40, "items": 500} for i in range(40)]
-        specs += [{"part": "switch", "shard": i, "units": 12, "funs": 40} for i in range(12)]
-        specs += [{"part": "init", "shard": 1000 + i, "units": 6, "items": 400, "unrestricted": True} for i in range(8)]
+        specs = [{"part": "init", "shard": i, "units": 20, "items": 500} for i in range(32)]
+        specs += [{"part": "switch", "shard": i, "units": 6, "funs": 40} for i in range(8)]
+        specs += [{"part": "init", "shard": 1000 + i, "units": 4, "items": 400, "unrestricted": True} for i in range(8)]
     return specs
 
 
 def floors(tier):
     big = tier != "quick"
-    return {"evaluations": 300000 if big else 5000,
-            "distinct_nontrivial": 200000 if big else 4000,
+    return {"evaluations": 200000 if big else 5000,
+            "distinct_nontrivial": 150000 if big else 4000,
             "observed.kind.scalar": 1000, "observed.kind.array": 250, "observed.kind.struct": 250,
             "observed.kind.bitfield": 250, "observed.kind.enum": 250, "observed.kind.arraysize": 250,
             "observed.dest": 11,
